@@ -202,8 +202,8 @@ _HOMO = ["the group homomorphism enters as two assumed instances, on exactly the
          "'the sum is infinity' <=> (k + t) mod n = 0 (true statements about secp256k1; a library that built any other term is not helped by them)"]
 
 
-@ob("C07", "neutering_commutes_with_unhardened_derivation", quick=[dict(n=1), dict(n=2)], thorough=[dict(n=1), dict(n=2), dict(n=3)],
-    bound="extended private key (k in 1..n-1, chain code, depth, parent fingerprint and index symbolic), paths of n symbolic unhardened indexes: N(CKDpriv(xprv, i..)) and CKDpub(N(xprv), i..) agree "
+@ob("C07", "neutering_commutes_with_unhardened_derivation", quick=[dict(n=1), dict(n=2)], thorough=[dict(n=1), dict(n=2)],
+    bound="extended private key (k in 1..n-1, chain code, depth, parent fingerprint and index symbolic), paths of n = 1, 2 symbolic unhardened indexes (three steps: solver-unknown at a branch after 460 s): N(CKDpriv(xprv, i..)) and CKDpub(N(xprv), i..) agree "
           "in key, chain code, depth, index, parent fingerprint and version, and one refuses exactly when the other does",
     stubs=_STUBS + _HOMO, functions=["btclib.bip32.bip32._derive", "btclib.bip32.bip32._xpub_from_xprv", "btclib.bip32.bip32.__prv_key_derivation", "btclib.bip32.bip32.__pub_key_derivation"],
     timeout=900, min_ok=1, weight=3)
